@@ -278,6 +278,7 @@ func (e *Exec) builtin(fr *Frame, st *State, x *ssa.Call, b *ssa.Builtin) (Value
 	case "copy":
 		return e.doCopy(fr, st, x), true
 	case "delete":
+		e.onMapDelete(fr, st, x, args[0], args[1])
 		e.mapDelete(fr, st, args[0], args[1])
 		return nil, true
 	case "clear":
